@@ -24,6 +24,15 @@ CLAIMED = {
             "Frame are compared with the chain-rule tangent of the repo's own primal function, for all real states, offsets, masses and "
             "inertias at once; gyroscopic power, quaternion length rate, M symmetric positive definite, E_kin, step_callback normalisation.",
             "4/C04", "symbolic execution of the real code on z3-term jets + z3 nlsat per scalar obligation; float replay of models", ""),
+    "C12": ("proof", "Forces/couples are compared with the chain-rule tangent of the strain energy, tangent matrices with the tangent of "
+            "forces/couples, and Simo1986's complementary energy/compliances with the Legendre dual, for all real strains, reference strains "
+            "and positive stiffnesses at once.", "4/C12",
+            "symbolic execution of the real material-law code on z3-term jets + z3 nlsat per scalar obligation; float replay of models", ""),
+    "C27": ("proof", "Feasibility, idempotence, projection inequality, non-expansiveness, degenerate ball, residual Jacobians on both active-set "
+            "branches and positivity of the prox-parameter estimate are decided per path of the real prox code for all real inputs of "
+            "dimension 1..2 (3 in the thorough tier).", "4/C27",
+            "path-exploring symbolic execution of the real prox code (forks on max/if) + z3 nlsat per obligation; float replay of models",
+            "Bounded in the vector dimension (n <= 2 quick, n <= 3 thorough; nu <= 3)."),
 }
 
 NOT_APPLICABLE = {
